@@ -5,7 +5,7 @@ vectors / clamping / options) + correspondence of the modelled functions with th
 model_auto.cpp / foxleg.cpp are compiled into the harness from the current source text) + post-condition oracle on
 Model::fit / Model::fitFromVMap / ModelOptimSillsVario::fit / ModelOptimVario::fit + optional trace hook (hooks/C17.patch).
 """
-import sys, os, math, itertools
+import sys, os, math, itertools, random
 sys.path.insert(0, os.path.dirname(__file__))
 from common import *
 
@@ -810,10 +810,65 @@ def compare_trace_models(ctx, mcases, mmeta, runner):
                 ctx.violation('model-drift:st_define_bounds:in-situ', 'step box recorded during %s differs from the model' % PATHS[c[1]],
                               {'fit_case': sx_str(c), 'record': sx_str(mc), 'impl': sx_str([b0, b1]), 'model': sx_str(mi)}, found_input=False)
 
+def directed_fit_cases():
+    """fixed scenarios (independent of the seed): one per option / constraint combination the property names"""
+    rng = random.Random(20260930)
+    def D(x): return dy(Fraction(x))
+    def points(n, nvar, ndim=2, hetero=False):
+        pts = []; seen = set()
+        for i in range(n):
+            while True:
+                x = [Fraction(rng.randint(0, 80), 8) for _ in range(ndim)]
+                if tuple(x) not in seen: break
+            seen.add(tuple(x))
+            z = [math.sin(float(x[0]) / 3 + v) + 0.5 * math.cos(float(x[-1]) / 2) + 0.3 * rng.gauss(0, 1) for v in range(nvar)]
+            zz = [D(Fraction(round(t * 64), 64)) for t in z]
+            if hetero: zz = [zz[0]] + [[]] * (nvar - 1) if i % 2 == 0 else [[]] + zz[1:]
+            pts.append([[D(v) for v in x], zz])
+        return pts
+    def dirs2(k, npas=6, tol=45.0):
+        return [[[D(math.cos(math.pi * i / k)), D(math.sin(math.pi * i / k))], npas, D(1.0), D(tol if k > 1 else 90.0)] for i in range(k)]
+    O = lambda **kw: [kw.get('noreduce', 1), kw.get('goulard', 1), kw.get('aniso', 1), kw.get('rot', 1), 0, 0, 0, 0, 0, kw.get('intrinsic', 0)]
+    out = []
+    def add(path, nvar, data, dirs, types, opts, items=(), cons=[], maxiter=1000, edits=()):
+        out.append([10, path, 2, nvar, data, dirs, list(edits), types, opts, [maxiter, 2], [list(i) for i in items], cons, 1, 0])
+    p1 = points(80, 1); p2 = points(80, 2); ph = points(60, 2, hetero=True)
+    add(0, 1, p1, dirs2(2), [0, 2], O())                                                   # plain
+    add(0, 1, p1, dirs2(2), [0, 2], O(goulard=0), [[0, 1, E_SILL, 0, 0, T_UPPER, D(4)]])   # sill bound, Goulard switched off by the user
+    add(0, 1, p1, dirs2(2), [0, 2], O(), [[0, 1, E_SILL, 0, 0, T_UPPER, D(Fraction(1, 4))]])  # sill bound, Goulard on (switched off by the library)
+    add(0, 1, p1, dirs2(2), [0, 2], O(), [[0, 1, E_RANGE, 0, 0, T_EQUAL, D(3)], [0, 1, E_RANGE, 1, 0, T_UPPER, D(2)]])
+    add(0, 1, p1, dirs2(2), [0, 2], O(), [[0, 1, E_RANGE, 0, 0, T_LOWER, D(6)], [0, 1, E_RANGE, 0, 0, T_UPPER, D(2)]])   # lower > upper
+    add(0, 1, p1, dirs2(3, tol=30.0), [0, 2], O(), [[0, 1, E_ANGLE, 0, 0, T_EQUAL, D(30)]])                            # rotation inferred
+    add(0, 1, p1, dirs2(2), [0, 2], O(), [[0, 1, E_ANGLE, 0, 0, T_EQUAL, D(30)]])                                       # rotation not inferred (2 directions)
+    add(0, 1, p1, dirs2(3, tol=30.0), [0, 2], O(aniso=0))
+    add(0, 1, p1, dirs2(3, tol=30.0), [0, 2], O(rot=0))
+    add(0, 1, p1, dirs2(2), [0, 10], O(), [[0, 1, E_PARAM, 0, 0, T_UPPER, D(Fraction(3, 2))]])
+    add(0, 2, p2, dirs2(2), [0, 2], O())
+    add(0, 2, p2, dirs2(2), [0, 2], O(), cons=D(2))                                          # constant sill, two variables
+    add(0, 1, p1, dirs2(2), [0, 2], O(), cons=D(2))
+    add(0, 2, p2, dirs2(2), [0, 2], O(intrinsic=1))
+    add(0, 2, p2, dirs2(2), [0, 2], O(goulard=0))                                           # must be refused
+    add(0, 2, ph, dirs2(2), [0, 2], O())                                                    # variables never known together
+    add(0, 2, p2, dirs2(2), [0, 2], O(), maxiter=0)
+    add(0, 1, p1, dirs2(2), [0, 1, 2], O(noreduce=0), [[0, 2, E_RANGE, 0, 0, T_UPPER, D(2)]], maxiter=3)   # reduction + not converged
+    add(2, 2, p2, dirs2(2), [0, 2], O())
+    add(2, 1, p1, dirs2(2), [0, 2], O(), edits=[[0, 2, D(0)]])                                # an empty lag
+    add(3, 1, p1, dirs2(2), [2], O())
+    add(3, 1, p1, dirs2(2), [2], O(), edits=[[1, 1, D(0)]])
+    # variogram map on a 10 x 10 grid
+    vals = [[D(Fraction(round((math.sin(i / 3.) + math.cos(j / 2.) + 0.3 * rng.gauss(0, 1)) * 64), 64))] for j in range(10) for i in range(10)]
+    out.append([10, 1, 2, 1, [10, 10, vals, 4], [], [], [0, 2], O(), [50, 2], [], [], 1, 0])
+    out.append([10, 1, 2, 1, [10, 10, vals, 4], [], [], [0, 2], O(aniso=0), [50, 2], [], [], 1, 0])
+    out.append([10, 1, 2, 1, [10, 10, vals, 4], [], [], [0, 2], O(rot=0), [50, 2], [], [], 1, 0])
+    out.append([10, 1, 2, 1, [10, 10, vals, 4], [], [], [0, 2], O(), [50, 2], [[0, 1, E_RANGE, 0, 0, T_UPPER, D(3)]], [], 1, 0])
+    vals2 = [[v[0], D(Fraction(rng.randint(-64, 64), 64))] for v in vals]
+    out.append([10, 1, 2, 2, [10, 10, vals2, 4], [], [], [0, 2], O(), [50, 2], [], [], 1, 0])
+    return out
+
 def stage_fit(ctx, exe, runner, quick):
     rng = ctx.rng
     N = 150 if quick else 1500
-    cases = [c for c in load_corpus(ctx) if c and c[0] == 10]
+    cases = [c for c in load_corpus(ctx) if c and c[0] == 10] + directed_fit_cases()
     ncorpus = len(cases)
     cases += [gen_fit_case(rng, i, quick) for i in range(N)]
     for k, c in enumerate(cases): c[13] = k       # tags = position (corpus cases included)
